@@ -274,35 +274,36 @@ def record_traces(seed, count, nmax, maxw=2):
     return traces
 
 
-def _trace_json(tr, N):
-    """pad to N headers and encode for Trace_ChainFinder"""
+def _trace_json(tr, N, internals=True):
+    """pad to N headers and encode for Trace_ChainFinder / Trace_ChainTrack"""
     n = tr["n"]
     par = [tr["par"].get(i, -1) for i in range(1, N + 1)]
     wt = [tr["wt"].get(i, 1) for i in range(1, N + 1)]
     ev = []
     for a, p in zip(tr["hist"], tr["projs"]):
         if "exc" in p:
-            ev.append({"a": a[0], "arg": a[1] if a[0] == "D" else [a[1]], "exc": 1,
+            ev.append({"a": a[0], "arg": a[1] if a[0] == "D" else [a[1]], "exc": 1, "hasf": 0,
                        "chain": [], "ops": [], "idx": [-1] * N, "locked": 0, "tfb": [], "dbt": []})
             break
         idx = [(-1 if p["idx"].get(str(i)) is None else p["idx"][str(i)]) for i in range(1, N + 1)]
-        ev.append({"a": a[0], "arg": a[1] if a[0] == "D" else [a[1]], "exc": 0,
+        hasf = 1 if (internals and "tfb" in p and "dbt" in p) else 0
+        ev.append({"a": a[0], "arg": a[1] if a[0] == "D" else [a[1]], "exc": 0, "hasf": hasf,
                    "chain": p["chain"], "ops": [[o[0], o[1], o[2]] for o in p.get("ops", [])],
                    "idx": idx, "locked": p["locked"],
                    # finder dicts as lists of <<key, value>> pairs (JSON objects would lose int keys)
-                   "tfb": sorted([[int(k), v] for k, v in p["tfb"].items()]),
-                   "dbt": sorted([[int(k), v] for k, v in p["dbt"].items() if v])})
+                   "tfb": sorted([[int(k), v] for k, v in p["tfb"].items()]) if hasf else [],
+                   "dbt": sorted([[int(k), v] for k, v in p["dbt"].items() if v]) if hasf else []})
     return {"par": par, "wt": wt, "ev": ev}
 
 
-def validate_traces(ctx, traces, N, expect_reject=()):
+def validate_traces(ctx, traces, N, internals=True, module="Trace_ChainFinder"):
     """returns list of rejected trace indices (0-based)"""
-    data = [_trace_json(t, N) for t in traces]
+    data = [_trace_json(t, N, internals) for t in traces]
     fd, path = tempfile.mkstemp(prefix="vf-c15-traces-", suffix=".json")
     with os.fdopen(fd, "w") as f:
         json.dump(data, f)
     try:
-        r = ctx.tlc("Trace_ChainFinder", "Trace_ChainFinder", workers=1, env={"TRACE_FILE": path},
+        r = ctx.tlc(module, module, workers=1, env={"TRACE_FILE": path},
                     count=False, timeout=1500, jvm=("-Dtlc2.tool.queue.IStateQueue=StateDeque",))
     finally:
         os.unlink(path)
@@ -325,9 +326,10 @@ def run(ctx):
                 "within the constants of each cfg); replay: every API-level behaviour printed by MC_ChainReplay executed on "
                 "BlockChain under every relabelling; distinct_nontrivial = behaviours with >= 2 calls whose final chain is non-empty")
     ctx.assumptions += ["weights are positive integers", "TLC/SANY, CPython", "headers are hashable values; parent 0 is the anchor"]
+    only = getattr(ctx, "only", None) or {"model", "replay", "trace"}
     # 1. model checking
     cfgs = ["MC_ChainFinder_q", "MC_ChainFinder_lock"] if q else ["MC_ChainFinder_t", "MC_ChainFinder_lock_t", "MC_ChainFinder_q"]
-    for cfg in cfgs:
+    for cfg in (cfgs if "model" in only else []):
         ctx.tlc("ChainFinder", cfg, coverage=not q, timeout=3000,
                 require_actions=() if q else ("Pop", "AddBegin", "AddFinish") + (("LockBegin", "LockFinish") if "lock" in cfg else ()))
     # teeth of the model itself: the pre-fix meld loop must violate the canonical form
@@ -336,8 +338,9 @@ def run(ctx):
 
     # 2. spec -> code
     nontriv = set()
-    for cfg, labmode in ([("MC_ChainReplay_q", "all"), ("MC_ChainReplay_lockq", "all")] if q else
-                         [("MC_ChainReplay_q", "all"), ("MC_ChainReplay_lock", "all"), ("MC_ChainReplay_t", 6)]):
+    for cfg, labmode in ([] if "replay" not in only else
+                         [("MC_ChainReplay_q", "all"), ("MC_ChainReplay_lockq", "all")] if q else
+                         [("MC_ChainReplay_q", "all"), ("MC_ChainReplay_lock", "all"), ("MC_ChainReplay_t", 6), ("MC_ChainReplay_w", "all")]):
         rp = Replayer(ctx, labmode)
         cnt = [0]
 
@@ -369,24 +372,55 @@ def run(ctx):
     ctx.selftest("replay_rejects_corrupted_expectation", res[0][1] != 0 and res[0][2] == 0)
 
     # 3. code -> spec
-    ntr = 300 if q else 3000
-    traces = record_traces(ctx.seed * 7919 + 15, ntr, 7 if q else 8)
+    if "trace" not in only:
+        return
     N = 8
-    for chunk_i, chunk in enumerate(split(traces, max(1, len(traces) // 600))):
-        rej, r = validate_traces(ctx, chunk, N)
+    # 3a. against the property itself (ChainTrack): many histories, observable state only
+    nprop = 3000 if q else 40000
+    ptraces = record_traces(ctx.seed * 104729 + 7, nprop, 8, maxw=3)
+    for chunk in split(ptraces, max(1, len(ptraces) // 3000)):
+        rej, _ = validate_traces(ctx, chunk, N, internals=False, module="Trace_ChainTrack")
         ctx.traces += len(chunk) - len(rej)
         ctx.case(None, len(chunk))
-        if chunk_i == 0:
-            ctx.sample({"trace": _trace_json(chunk[0], N)})
         for i in rej:
             t = chunk[i]
             kinds = "".join(a[0] for a in t["hist"])
+            ctx.fail("C15|trace-property|locks=%s|exc=%s" % ("L" in kinds, any("exc" in p for p in t["projs"])),
+                     "recorded BlockChain run violates ChainTrack.tla (the property): par=%s wt=%s hist=%s last=%s" % (
+                         t["par"], t["wt"], t["hist"], {k: v for k, v in t["projs"][-1].items() if k in ("chain", "ops", "idx", "exc")}),
+                     {"par": t["par"], "wt": t["wt"], "hist": t["hist"], "projs": t["projs"]})
+    ctx.sample({"property_trace": _trace_json(ptraces[0], N, False)})
+    # 3b. against the implementation-shaped model (ChainFinder): pop order inferred by TLC
+    ntr = 300 if q else 3000
+    traces = record_traces(ctx.seed * 7919 + 15, ntr, 7 if q else 8)
+    accepted = []
+    for chunk_i, chunk in enumerate(split(traces, max(1, len(traces) // 600))):
+        rej, r = validate_traces(ctx, chunk, N)
+        latent = []
+        if rej:
+            # the finder's dictionaries are internal state: re-validate on the observable fields only
+            rej2, _ = validate_traces(ctx, [chunk[i] for i in rej], N, internals=False)
+            hard = {rej[j] for j in rej2}
+            latent = [i for i in rej if i not in hard]
+            rej = sorted(hard)
+        ctx.traces += len(chunk) - len(rej)
+        ctx.case(None, len(chunk))
+        accepted += [t for i, t in enumerate(chunk) if i not in rej and i not in latent]
+        if chunk_i == 0:
+            ctx.sample({"trace": _trace_json(chunk[0], N)})
+        if latent:
+            ctx.extra["traces_with_unexpected_internal_state"] = ctx.extra.get("traces_with_unexpected_internal_state", 0) + len(latent)
+            ctx.log("note: %d traces match the model on every observable field but not on the finder's internal dictionaries "
+                    "(not a violation of C15)" % len(latent))
+        for i in rej:
+            t = chunk[i]
             ctx.fail("C15|trace|rejected|exc=%s" % any("exc" in p for p in t["projs"]),
                      "recorded BlockChain run is not a behaviour of ChainFinder.tla: par=%s wt=%s hist=%s" % (t["par"], t["wt"], t["hist"]),
                      {"par": t["par"], "wt": t["wt"], "hist": t["hist"], "projs": t["projs"]})
-    # binding self-test: corrupt one logged field of an accepted trace
+    # binding self-test: corrupt one logged field of an accepted trace (skipped if nothing was accepted)
     import copy
-    good = [t for t in traces[:50] if len(t["projs"]) >= 2 and all("exc" not in p for p in t["projs"]) and t["projs"][-1]["chain"]]
+    good = [t for t in accepted[:200] if len(t["projs"]) >= 2 and all("exc" not in p for p in t["projs"]) and t["projs"][-1]["chain"]
+            and t["projs"][-1].get("tfb")]
     if good:
         bad1 = copy.deepcopy(good[0])
         bad1["projs"][-1]["chain"] = bad1["projs"][-1]["chain"][:-1]
@@ -395,4 +429,6 @@ def run(ctx):
         bad2["projs"][-1]["tfb"][k0] = bad2["projs"][-1]["tfb"][k0][:-1]
         rej, _ = validate_traces(ctx, [good[0], bad1, bad2], N)
         ctx.selftest("trace_rejects_corrupted_field", rej == [1, 2])
+        rej, _ = validate_traces(ctx, [good[0], bad1], N, internals=False, module="Trace_ChainTrack")
+        ctx.selftest("property_trace_rejects_corrupted_field", rej == [1])
     ctx.exhaustive = True
